@@ -7,7 +7,7 @@ the per-list invariant listinv(L).  The contracts are EXACT state transformers
     isin(x, L)  -- x occurs in L          at(L, k) -- element k
     length(L)                             listinv(L)
 Acyclicity / reachability are global and are bounded (T2)."""
-from dpvc.symexec import Contract, Loop
+from dpvc.symexec import Contract, Loop, SV
 from dpvc.symexec3 import Executor3
 from dpvc.verify import Suite, verify_contract
 from dpvc import replay as dreplay
@@ -201,20 +201,60 @@ CONTRACTS = [
 ]
 
 
+# ---- methods built on the primitives: a new child is an ALLOCATION (Node.__init__: ASSUMED constructor contract -- a node without parent
+# and children; freshness is the engine's allocation axiom); `child_nodes` of set_child_nodes is any iterable of nodes (a holder
+# object whose iteration is the ghost list g_items)
+SCHEMA["NodeArg.g_items"] = "ghost reflist:Node"
+NODE_INIT = Contract(ND + ":Node.__init__", types={"**": "opaque"}, requires="True",
+                     modifies=["self._parent_node", "self._child_nodes", "self._edge"], frame=False, assumed=True,
+                     ensures={"detached": "isnone(self._parent_node) and length(self._child_nodes) == 0 and listinv(self._child_nodes)"})
+APPENDED = ("length({L}) == old(length({L})) + 1 and at({L}, old(length({L}))) == result and forall_int(lambda k: implies(0 <= k and k < old(length({L})), at({L}, k) == at(old({L}), k)))").format(L=CH)
+COMPOSITES = [
+ Contract(ND + ":Node.new_child", types={"**": "opaque", "return": "ref:Node"}, requires="listinv(%s)" % CH,
+          modifies=["Node._parent_node[*]", "Node._child_nodes[*]", "Node._edge[*]", "Node.g_pos[*]", "Node.g_owner[*]"], frame=False,
+          ensures={"a-new-last-child": APPENDED, "parent-set": "result._parent_node == self", "list-invariant": "listinv(%s)" % CH,
+                   "not-an-old-child": "not old(isin(result, %s))" % CH, "new-node-has-no-children": "length(result._child_nodes) == 0"}),
+ Contract(ND + ":Node.insert_new_child", types={"index": "int", "**": "opaque", "return": "ref:Node"}, requires="listinv(%s) and 0 <= index and index <= length(%s)" % (CH, CH),
+          modifies=["Node._parent_node[*]", "Node._child_nodes[*]", "Node._edge[*]", "Node.g_pos[*]", "Node.g_owner[*]"], frame=False,
+          ensures={"inserted-at-index": "length({L}) == old(length({L})) + 1 and at({L}, index) == result".format(L=CH), "parent-set": "result._parent_node == self",
+                   "list-invariant": "listinv(%s)" % CH, "not-an-old-child": "not old(isin(result, %s))" % CH,
+                   "old-children-kept": "forall_ref('Node', lambda m: implies(old(isin(m, {L})), isin(m, {L})))".format(L=CH)}),
+ Contract(ND + ":Node.set_child_nodes", types={"child_nodes": "ref:NodeArg"},
+          # the nodes handed over: none is self or self's parent (add_child's documented preconditions), none is None
+          requires=("forall_int(lambda j: implies(0 <= j and j < length(child_nodes.g_items), not isnone(at(child_nodes.g_items, j)) and at(child_nodes.g_items, j) != self "
+                    "and at(child_nodes.g_items, j) != self._parent_node))"),
+          modifies=["Node._parent_node[*]", "self._child_nodes", "Node.g_pos[*]", "Node.g_owner[*]"], frame=False,
+          locals={"nd": "ref:Node"},
+          loops={0: Loop(invariant=("listinv({L}) and forall_int(lambda j: implies(0 <= j and j < loop_index(), isin(at(child_nodes.g_items, j), {L}) and at(child_nodes.g_items, j)._parent_node == self)) "
+                                    "and forall_ref('Node', lambda m: implies(isin(m, {L}), exists_int(lambda j: 0 <= j and j < loop_index() and at(child_nodes.g_items, j) == m))) "
+                                    "and self._parent_node == pre(self._parent_node)").format(L=CH))},
+          ensures={"list-invariant": "listinv(%s)" % CH,
+                   "every-node-given-is-a-child-with-self-as-parent": "forall_int(lambda j: implies(0 <= j and j < length(child_nodes.g_items), isin(at(child_nodes.g_items, j), {L}) and at(child_nodes.g_items, j)._parent_node == self))".format(L=CH),
+                   "no-other-child": "forall_ref('Node', lambda m: implies(isin(m, {L}), exists_int(lambda j: 0 <= j and j < length(child_nodes.g_items) and at(child_nodes.g_items, j) == m)))".format(L=CH)}),
+]
+
+
 class HeapExecutor(Executor3):
     lenient = False
     prune_infeasible = True
+    iter_views = {"NodeArg": "g_items"}
+    kwargs_passthrough = True   # Node(**kwargs): the constructor contract covers every keyword
+
+    def attr_of(self, st, base, attr, lineno):
+        if attr == "__class__" and base.kind == "ref" and base.cls == "Node" and not self.spec:
+            return SV("class", "Node")   # self.__class__(...) in Node methods: a Node (subclasses: bounded)
+        return Executor3.attr_of(self, st, base, attr, lineno)
 
 
-SUITE = Suite(SCHEMA, [ND, ED], CONTRACTS, executor_cls=HeapExecutor)
+SUITE = Suite(SCHEMA, [ND, ED], CONTRACTS + COMPOSITES + [NODE_INIT], executor_cls=HeapExecutor)
 
 
 def t1(ctx):
     ctx.assume("C03/T1 theory B: child lists modelled exactly (length + element array) with the ghost position map g_pos and listinv; "
                "Node/Edge equality is identity; acyclicity, reachability and the composite operations are bounded (T2)")
-    for c in CONTRACTS:
+    for c in CONTRACTS + COMPOSITES:
         verify_contract(ctx, SUITE, c, sentinels=False, replay=dreplay.replay_by_search(states))
-    dreplay.validate_contracts_natively(ctx, CONTRACTS, states, "primitive-contracts@forests<=4",
+    dreplay.validate_contracts_natively(ctx, CONTRACTS + COMPOSITES, states, "primitive-contracts@forests<=4",
                                         "every T1 contract as a run-time monitor on the real method, for every ordered forest shape with <= 4 leaves "
                                         "plus one detached node x every receiver/argument choice; non-trivial = inside the contract's requires")
 
@@ -281,16 +321,38 @@ def states(c):
             elif cls == "Edge" and meth == "_get_tail_node":
                 nodes = forest(shape)
                 yield {"self": nodes[i].edge}, {"Node": nodes}, "%s: n%d.edge.tail_node on %s" % (c.name, i, shape)
+            elif cls == "Node" and meth in ("new_child", "insert_new_child"):
+                for idx in ((None,) if meth == "new_child" else (0, 1, 2)):
+                    nodes = forest(shape)
+                    if idx is not None and idx > len(nodes[i]._child_nodes):
+                        continue
+                    kw = {"self": nodes[i]}
+                    if idx is not None:
+                        kw["index"] = idx
+                    yield kw, {"Node": nodes}, "%s: n%d.%s(%s) on %s" % (c.name, i, meth, "" if idx is None else idx, shape)
+            elif cls == "Node" and meth == "set_child_nodes":
+                for pick in itertools.chain.from_iterable(itertools.permutations(range(n_nodes), r) for r in (0, 1, 2)):
+                    for dup in (False, True):
+                        nodes = forest(shape)
+                        arg = [nodes[j] for j in pick] + ([nodes[pick[0]]] if dup and pick else [])
+                        if dup and not pick:
+                            continue
+                        yield {"self": nodes[i], "child_nodes": NodeArg(arg)}, {"Node": nodes}, "%s: n%d.set_child_nodes(%s) on %s" % (
+                            c.name, i, ["n%d" % nodes.index(x) for x in arg], shape)
             elif cls == "Node" and meth in ("clear_child_nodes", "_get_edge", "_get_parent_node"):
                 nodes = forest(shape)
                 yield {"self": nodes[i]}, {"Node": nodes}, "%s: n%d.%s() on %s" % (c.name, i, meth, shape)
+
+
+class NodeArg(list):
+    g_items = property(lambda self: list(self))
 
 
 def replay(ctx, rec):
     w = rec.get("witness", {})
     print(w.get("state"), "->", w.get("outcome"), w.get("failed_clauses"))
     target = w.get("function")
-    c = [x for x in CONTRACTS if x.target == target]
+    c = [x for x in CONTRACTS + COMPOSITES if x.target == target]
     if not c:
         return True
     for kw, uni, desc in states(c[0]):
